@@ -108,6 +108,7 @@ fn main() {
     let modes = [Mode::Eager, Mode::Burst, Mode::SlowRead];
     let cfgs = grid(&sc, &[8, 48, 4096], &[2, 3, 64], &modes, &[0]);
     let mut small = asys::grid::with_small_lane_buf(&cfgs);
+    small.extend(asys::grid::with_small_lane_in_buf(&cfgs));
     small.extend(cfgs);
     let cfgs = small;
     run_grid(&ctx, GridSpec { name: "as-value-grid-d1".into(), cfgs, bound: 1, max_exec_per_cfg: 20_000, wall_cap_s: if quick { 25.0 } else { 900.0 } });
